@@ -1,3 +1,5 @@
+\* leader transfer (t1) + replica replacement (t2); measured: 28,108 distinct states, 2,694,476 transitions,
+\* ~2.5 min at machine load 40 (6-8 workers); every Nx action non-zero under -coverage 1
 SPECIFICATION Spec
 CONSTANTS
   Tasks = {"t1", "t2"}
